@@ -134,17 +134,24 @@ NewHandle(s, k) == [s EXCEPT !.handles = Upd(@, s.next_handle, [inode |-> k, fil
 RawLen(s) == Len(s.raw)
 \* lseek(fd, c): the position after every record whose cookie is <= c
 SeekPos(s, c) == Cardinality({i \in 1..RawLen(s) : s.raw[i][2] <= c})
-Batch(s, pos, cap) == SubSeq(s.raw, pos + 1, IF pos + cap > RawLen(s) THEN RawLen(s) ELSE pos + cap)
-\* getdents capacity for a reply of `size` entry units (every record, dots included, takes one unit; the fix reads
-\* two records more than the reply can hold)
-Cap(size) == IF BUG_DOTS THEN size ELSE size + 2
+RawBatch(s, pos, cap) == SubSeq(s.raw, pos + 1, IF pos + cap > RawLen(s) THEN RawLen(s) ELSE pos + cap)
+OnlyDots(bt) == bt # <<>> /\ \A i \in DOMAIN bt : bt[i][1] = "." \/ bt[i][1] = ".."
+\* one getdents64 batch from stream position pos: <<records, new position>>. As the code is (BUG_DOTS) the batch is
+\* taken as it comes; the proposed fix reads on while a batch holds nothing but "." / ".."
+RECURSIVE BatchAt(_, _, _)
+BatchAt(s, pos, cap) ==
+  LET bt == RawBatch(s, pos, cap) IN
+  IF ~BUG_DOTS /\ OnlyDots(bt) THEN BatchAt(s, pos + Len(bt), cap) ELSE <<bt, pos + Len(bt)>>
+Batch(s, pos, cap) == BatchAt(s, pos, cap)[1]
+\* every record, dots included, takes one unit of the getdents buffer, which has the size of the reply
+Cap(size) == size
 \* skip_to_cookie: records after the one whose cookie = c, or "none"
 SkipTo(buf, c) == IF \E i \in DOMAIN buf : buf[i][2] = c
                   THEN <<TRUE, SubSeq(buf, (CHOOSE i \in DOMAIN buf : buf[i][2] = c) + 1, Len(buf))>> ELSE <<FALSE, <<>>>>
 \* linear-scan fallback from position 0: <<buf, fd position>>
 RECURSIVE Scan(_, _, _, _, _)
 Scan(s, pos, cap, c, found) ==
-  LET bt == Batch(s, pos, cap) np == pos + Len(bt) IN
+  LET ba == BatchAt(s, pos, cap) bt == ba[1] np == ba[2] IN
   IF bt = <<>> THEN <<bt, np>>
   ELSE IF found THEN <<bt, np>>
   ELSE LET sk == SkipTo(bt, c) IN
@@ -158,7 +165,7 @@ ReadBatch(s, h, size, off) ==
       pos0 == IF nod THEN 0 ELSE s.handles[h].pos
       seekok == hit \/ off <= MAXSEEK
       pos1 == IF hit THEN pos0 ELSE SeekPos(s, off)
-      r == IF seekok THEN <<Batch(s, pos1, Cap(size)), pos1 + Len(Batch(s, pos1, Cap(size)))>> ELSE Scan(s, 0, Cap(size), off, FALSE)
+      r == IF seekok THEN BatchAt(s, pos1, Cap(size)) ELSE Scan(s, 0, Cap(size), off, FALSE)
       ck2 == IF ~nod /\ r[1] # <<>> THEN Upd(ck1, h, r[1][Len(r[1])][2]) ELSE ck1    \* cache_cookie
   IN [buf |-> r[1], pos |-> r[2], cookies |-> ck2]
 IsDotRec(r) == r[1] = "." \/ r[1] = ".."
